@@ -53,6 +53,7 @@ type Frame struct {
 	rk        retKind
 	defers    []*deferRec
 	unwinding bool
+	deferred  bool // this frame is a deferred function invoked by the defer mechanism (recover works only directly in such a frame)
 }
 
 type tStatus uint8
